@@ -190,12 +190,12 @@ def run(ctx) -> None:
     # ------------------------------------------------------------------------------------------ R1 decision table
     writer = repo.method('Outputs', 'PrintOutputs', 'geophires_x/Outputs.py')
     prints: Dict[str, List[ast.Call]] = {o: [] for o in OUTS}
-    for c in calls_in(writer.node):
-        if isinstance(c.func, ast.Attribute) and c.func.attr == 'write':
-            txt = norm(c)
+    from gxstat.report import writer_templates as _wt0
+    for t_ in _wt0(repo, only=['Outputs']):        # through the template engine: f-string, concatenation, .format with attribute fields
+        for v_ in t_.values():
             for o in OUTS:
-                if f'economics.{o}.value' in txt:
-                    prints[o].append(c)
+                if v_.obj == f'model.economics.{o}' and t_.call not in prints[o]:
+                    prints[o].append(t_.call)
     ctx.floor('R1', sum(len(v) for v in prints.values()), 4, 'report lines printing a levelized cost')
     rows = bad_rows = 0
     reported: Set[str] = set()
